@@ -81,11 +81,12 @@ Section Config.
   Proof. unfold channel_slices. intros i cn ab H. destruct (combine_running_tiles _ 0 i cn ab H) as (H1 & H2 & H3). repeat split; auto. Qed.
 
   (* ---- overrides appear verbatim, defaults otherwise ---- *)
-  Lemma user_merge_some {A} (d : optv (list A)) l r : user_merge d (Some l) = Ok r -> r = Val l.
-  Proof. unfold user_merge. destruct d as [| |dl]; try discriminate; [intros H; now inversion H|].
-    destruct dl; [intros H; now inversion H|]. destruct (Nat.eqb _ _); [intros H; now inversion H|discriminate]. Qed.
-  Lemma user_merge_none {A} (d : optv (list A)) r : user_merge d None = Ok r -> r = d.
-  Proof. simpl. intros H; now inversion H. Qed.
+  Lemma user_merge_some {A} n (d : optv (list A)) l r : user_merge n d (Some l) = Ok r -> r = Val l.
+  Proof. unfold user_merge. destruct d as [| |dl]; try discriminate.
+    - destruct (Nat.eqb _ _); [intros H; now inversion H|discriminate].
+    - destruct dl; [intros H; now inversion H|]. destruct (Nat.eqb _ _); [intros H; now inversion H|discriminate]. Qed.
+  Lemma user_merge_none {A} n (d : optv (list A)) r : user_merge n d None = Ok r -> r = d.
+  Proof. simpl. destruct d; try discriminate; intros H; now inversion H. Qed.
 
   Ltac agree_step H :=
     match type of H with
@@ -101,15 +102,15 @@ Section Config.
   Proof.
     unfold reduce_one. intros H Hu. rewrite Hu in H. destruct rs as [|r0 rs']; [discriminate|]. unfold usr, bind in H.
     do 4 agree_step H.
-    destruct (user_merge (r_inits N r0) (pc_inits u)) as [xi|] eqn:Ei; [|discriminate].
+    destruct (user_merge (r_n N r0) (r_inits N r0) (pc_inits u)) as [xi|] eqn:Ei; [|discriminate].
     agree_step H.
-    destruct (user_merge (r_bounds N r0) (pc_bounds u)) as [xb|] eqn:Eb; [|discriminate].
+    destruct (user_merge (r_n N r0) (r_bounds N r0) (pc_bounds u)) as [xb|] eqn:Eb; [|discriminate].
     agree_step H.
-    destruct (user_merge (r_aux N r0) (pc_auxdata u)) as [xa|] eqn:Ea; [|discriminate].
+    destruct (user_merge (r_n N r0) (r_aux N r0) (pc_auxdata u)) as [xa|] eqn:Ea; [|discriminate].
     agree_step H.
-    destruct (user_merge (r_factors N r0) (pc_factors u)) as [xf|] eqn:Ef; [|discriminate].
+    destruct (user_merge (r_n N r0) (r_factors N r0) (pc_factors u)) as [xf|] eqn:Ef; [|discriminate].
     agree_step H.
-    destruct (user_merge (r_var N r0) (option_map (map (fun s => nmul N s s)) (pc_sigmas u))) as [xv|] eqn:Ev; [|discriminate].
+    destruct (user_merge (r_n N r0) (r_var N r0) (option_map (map (fun s => nmul N s s)) (pc_sigmas u))) as [xv|] eqn:Ev; [|discriminate].
     agree_step H.
     inversion H; subst; simpl. repeat split; intros l Hl.
     - rewrite Hl in Ei. now apply user_merge_some in Ei.
@@ -124,8 +125,18 @@ Section Config.
     p_inits N p = r_inits N r0 /\ p_bounds N p = r_bounds N r0 /\ p_aux N p = r_aux N r0 /\
     p_factors N p = r_factors N r0 /\ p_var N p = r_var N r0 /\ p_fixed N p = r_fixed N r0.
   Proof.
-    unfold reduce_one. intros H Hu. rewrite Hu in H. unfold usr, bind, user_merge, option_map in H.
-    do 9 agree_step H.
+    unfold reduce_one. intros H Hu. rewrite Hu in H. unfold usr, bind, option_map in H.
+    do 4 agree_step H.
+    destruct (user_merge (r_n N r0) (r_inits N r0) None) as [xi|] eqn:Ei; [|discriminate]. apply user_merge_none in Ei.
+    agree_step H.
+    destruct (user_merge (r_n N r0) (r_bounds N r0) None) as [xb|] eqn:Eb; [|discriminate]. apply user_merge_none in Eb.
+    agree_step H.
+    destruct (user_merge (r_n N r0) (r_aux N r0) None) as [xa|] eqn:Ea; [|discriminate]. apply user_merge_none in Ea.
+    agree_step H.
+    destruct (user_merge (r_n N r0) (r_factors N r0) None) as [xf|] eqn:Ef; [|discriminate]. apply user_merge_none in Ef.
+    agree_step H.
+    destruct (user_merge (r_n N r0) (r_var N r0) None) as [xv|] eqn:Ev; [|discriminate]. apply user_merge_none in Ev.
+    agree_step H.
     inversion H; subst; simpl. repeat split.
   Qed.
 
